@@ -1,7 +1,7 @@
 (* C15: the statements of the property, derived from the two invariants. *)
 From Coq Require Import ZArith List Bool Lia.
 Import ListNotations.
-From Osmo Require Import Base.DecModel C15.Model C15.Spec C15.ProofsMap C15.ProofsStep C15.ProofsInv1 C15.ProofsCoins C15.ProofsInv2.
+From Osmo Require Import Base.DecModel C15.Model C15.Spec C15.ProofsMap C15.ProofsStep C15.ProofsInv1 C15.ProofsCoins C15.ProofsInv2 C15.ProofsSpec.
 Open Scope Z_scope.
 
 (* ---- ClaimRewards / DeletePosition pay trunc(claimable) / claimable ---- *)
@@ -381,4 +381,40 @@ Lemma wrun_wgood : forall ops w, wgood w -> wadmissible_all w ops -> wgood (wrun
 Proof.
   induction ops as [|o r IH]; intros w Hg Ha; [exact Hg|].
   destruct Ha as [Ha1 Ha2]. cbn [wrun]. apply IH; [apply wstep_wgood; assumption|exact Ha2].
+Qed.
+
+(* ---- plain API: a record's reference point never exceeds the accumulator value (so DecCoins.Sub cannot go
+        negative there, the check the code's TODO asks for is not needed) ---- *)
+Definition grow_nonneg (tr : trace) : Prop := Forall (fun e => forall d, 0 <= grows (fst e) d) tr.
+
+Lemma amt_nonneg : forall c d, nonneg c -> 0 <= amt d c.
+Proof.
+  induction c as [|x c IH]; intros d H; cbn [amt]; [lia|]. inversion H; subst.
+  destruct (fst x =? d); [assumption|apply IH; assumption].
+Qed.
+
+Lemma hist_grow_nonneg : forall tr st, hist tr st -> grow_nonneg tr.
+Proof.
+  induction 1 as [|tr st rv o Hh IH Hdom Hrv]; [constructor|].
+  constructor; [|exact IH]. intros d. cbn [fst]. destruct o; cbn [grows]; try lia.
+  destruct Hdom as [_ Hn]. apply amt_nonneg; exact Hn.
+Qed.
+
+Lemma since_nonneg : forall tr, grow_nonneg tr -> forall n d, 0 <= since tr n d.
+Proof.
+  induction tr as [|[o x] tr IH]; intros Hg n d; cbn [since]; [lia|].
+  inversion Hg as [|? ? H1 H2]; subst. specialize (IH H2 n d). cbn [fst] in H1. specialize (H1 d).
+  destruct x; try exact IH. destruct (boundary o n); lia.
+Qed.
+
+Lemma plain_snapshot_below_value : forall tr st, hist tr st -> plain tr ->
+  forall n r c, p_get n (a_pos st) = Some r -> a_content st = Some c ->
+  forall d, amt d (r_snap r) <= amt d (c_value c).
+Proof.
+  intros tr st Hh Hp n r c Hg Hc d.
+  destruct (hist_inv tr st Hh) as [_ [c2 [Hc2 [[_ Hval] Hrec]]]].
+  rewrite Hc in Hc2. injection Hc2 as <-.
+  destruct (Hrec n r Hg) as [_ [_ [Hsn _]]]. rewrite Hsn, Hval.
+  pose proof (pending_since tr Hp n d) as E. unfold pending in E.
+  pose proof (since_nonneg tr (hist_grow_nonneg tr st Hh) n d). lia.
 Qed.
